@@ -1,6 +1,8 @@
 package arraylist
 
 import (
+	vl "github.com/emirpasic/gods/v2/zzvlib"
+	"encoding/json"
 	"github.com/emirpasic/gods/v2/containers"
 	"github.com/emirpasic/gods/v2/lists"
 	v "github.com/emirpasic/gods/v2/zzvsup"
@@ -69,4 +71,28 @@ func VHEnum() {
 func VHSnap() {
 	c, _ := VGList()
 	containers.VSnapStep(containers.VSnap{C: c, Mutate: []func(){c.Clear, func() { c.Add(v.Int("m")) }, func() { c.Remove(0) }, func() { c.Set(0, v.Int("m")) }, func() { c.Swap(0, c.Size()-1) }, func() { c.Sort(func(a, b int) int { return b - a }) }}, AddArgs: []func([]int){func(a []int) { c.Add(a...) }, func(a []int) { c.Insert(0, a...) }, func(a []int) { c.Insert(c.Size(), a...) }}, New: func(a []int) containers.Container[int] { return New(a...) }})
+}
+
+var _ = vl.Less
+
+func vJSON(c *List[int]) containers.VJSON {
+	return containers.VJSON{C: c, ToJSON: c.ToJSON, FromJSON: c.FromJSON,
+		Marshal: func() ([]byte, error) { return json.Marshal(c) },
+		Inv:     func() { v.Assert(len(c.elements) <= cap(c.elements), "inv-len-cap") },
+		Step:    func() { x := v.Int("sx"); c.Add(x); y, ok := c.Get(c.Size() - 1); v.Assert(v.And(ok, y == x), "C12:add-after-load") },
+		Fresh:   func() containers.VJSON { return vJSON(New[int]()) },
+		Ref: func(ks, xs []int) ([]int, []int) { return nil, xs },
+	}
+}
+
+// VHJSONRound: ToJSON / json.Marshal / FromJSON round trip from an arbitrary state (C11).
+func VHJSONRound() {
+	c, _ := VGList()
+	containers.VJSONRound(vJSON(c))
+}
+
+// VHJSONLoad: FromJSON of an arbitrary document into an arbitrary prior state (C12, C17).
+func VHJSONLoad() {
+	c, _ := VGList()
+	containers.VJSONLoad(vJSON(c))
 }
